@@ -170,3 +170,46 @@ Proof.
   unfold task_run in H. destruct (task_inputs st x) as [[a k]| |] eqn:Ei; try discriminate.
   destruct (fsem _ _ a k) eqn:Es; [|discriminate]. inversion H; subst. eauto 8.
 Qed.
+
+(* ---- programs with barriers run by many workers: barrier edges are extra scheduling dependencies,
+   and every theorem of the protocol applies to them --------------------------------------------- *)
+Theorem bprograms_are_framed : forall bp, framed (bprog_cfg bp).
+Proof. intros bp t r r' H. apply bprog_sem_frame. exact H. Qed.
+
+Theorem bprograms_are_ranked : forall bp, wf_bprog bp = true -> ranked (bprog_cfg bp) (bprog_rank bp).
+Proof. intros bp H t d. apply bprog_rank_deps. exact H. Qed.
+
+Theorem bprograms_are_closed : forall bp, wf_bprog bp = true -> closed (bprog_cfg bp).
+Proof. intros bp H t d. apply bprog_tasks_closed. exact H. Qed.
+
+(* any number of workers, any interleaving, any number of barrier phases: whatever is stored is the
+   sequential value (barriers only delay: sequential evaluation of the underlying program ignores
+   them), and when every worker has left every task that neither raises nor depends on a raising one
+   - barrier edges included - is stored *)
+Theorem barrier_program_values_are_sequential : forall bp, wf_bprog bp = true ->
+  forall r0 tr s order, reach (bprog_cfg bp) r0 tr s -> topo (bprog_cfg bp) [] order ->
+  forall t v, In t order -> results s t = Some v -> seq_eval (bprog_cfg bp) order r0 t = Some v.
+Proof.
+  intros bp Hw. eapply values_are_sequential; [apply bprograms_are_framed | apply bprograms_are_ranked; auto].
+Qed.
+
+Theorem barrier_program_complete : forall bp, wf_bprog bp = true ->
+  forall r0 tr s, reach (bprog_cfg bp) r0 tr s -> forallb (okev (bprog_cfg bp)) tr = true ->
+  quiescent all_workers s -> (exists w c, w_pc (ws s w) = PDone c) ->
+  forall t, In t (c_tasks (bprog_cfg bp)) -> (results s t <> None <-> ~ doomed (bprog_cfg bp) (results s) t).
+Proof.
+  intros bp Hw. eapply complete_at_quiescence;
+    [apply bprograms_are_framed | apply bprograms_are_ranked; auto | apply bprograms_are_closed; auto].
+Qed.
+
+(* a task after a barrier is never started before everything in front of the barrier is stored *)
+Theorem nothing_after_a_barrier_starts_early : forall bp r0 tr s w t s', reach (bprog_cfg bp) r0 tr s ->
+  step (bprog_cfg bp) s (EStart w t) = Some s' ->
+  forall d, In d (extra_of (bp_extra bp) t) -> In t (map t_id (p_tasks (bp_prog bp))) -> results s d <> None.
+Proof.
+  intros bp r0 tr s w t s' R H d Hd Ht.
+  destruct (dependencies_first (bprog_cfg bp) (bprograms_are_framed bp) r0 tr s w t s' R H) as [X _].
+  apply X. simpl. unfold bprog_deps. apply in_or_app. right.
+  assert (Hm : mem t (map t_id (p_tasks (bp_prog bp))) = true) by (apply mem_In'; exact Ht).
+  rewrite Hm. exact Hd.
+Qed.
